@@ -1528,7 +1528,9 @@ def N6s(vc):
             stopper.havoc()
     vc.used('api.request', 'N2+N3'); vc.used('api.iter_jsonlines', 'N6')
     ld = vc.load('kopf._cogs.clients.api', 'stream', stubs={
-        'request': request, 'iter_jsonlines': iter_jsonlines, 'asyncio.current_task': lambda: task},
+        # asyncio.current_task(): the running task inside the coroutine -- and None inside a callback the event loop runs
+        # (future done-callbacks are run by loop.call_soon, outside of any task)
+        'request': request, 'iter_jsonlines': iter_jsonlines, 'asyncio.current_task': lambda: (None if st.get('in_callback') else task)},
         loops={1: LoopSpec('async for line in iter_jsonlines(', element=element, at_backedge=at_backedge)})
     raised = None
     try:
@@ -1550,8 +1552,16 @@ def N6s(vc):
     if stopper is not None:
         for cb in cbs_during_request:
             n0 = len(vc.trace)
-            cb(stopper)
-            vc.ensure('stopper.cancels_the_pending_request', [ev[0] for ev in vc.trace[n0:]] == ['task.cancel'])
+            st['in_callback'] = True          # the loop runs the done-callback: no task is current then
+            try:
+                cb(stopper)
+                cb_error = None
+            except (AssertionError, AttributeError) as e:
+                cb_error = e
+            finally:
+                st['in_callback'] = False
+            # F-C19-6 (the callback asked current_task() itself and failed; fixed in repo a771e1a) was found here
+            vc.ensure('stopper.cancels_the_pending_request', cb_error is None and [ev[0] for ev in vc.trace[n0:]] == ['task.cancel'])
         vc.ensure('stopper.cancels_the_pending_request', len(cbs_during_request) <= 1)
         vc.ensure('stopper.cancels_the_pending_request', Implies(Not(done_at_entry), len(cbs_during_request) == 1))
         vc.ensure('callbacks_removed', stopper.callbacks == [])
